@@ -63,7 +63,8 @@ MUTATORS = {
 
 
 def _test_points(rng):
-    return {"seed": rng.randrange(1 << 30), "t": rng.randint(1, 4)}
+    # tb: batch shape of the test inputs (a non-batch model evaluated on a batch of test sets, e.g. candidate sets)
+    return {"seed": rng.randrange(1 << 30), "t": rng.randint(1, 4), "tb": rng.choice([[], [], [], [2], [3]])}
 
 
 def gen_predict(rng, recipe, iterative=False, allow=None, p_each=0.3):
@@ -225,7 +226,10 @@ def _quiet():
 def test_args(recipe, op, model=None):
     d = recipe["d"]
     batch = recipe.get("batch", [])
-    xs = zoo.rand(op["seed"], *batch, op["t"], d) * 1.2 - 0.1
+    tb = op.get("tb") or []
+    if batch or recipe["family"] in ("hadamard",):
+        tb = []
+    xs = zoo.rand(op["seed"], *tb, *batch, op["t"], d) * 1.2 - 0.1
     if recipe["family"] == "hadamard":
         idx = torch.randint(0, recipe["tasks"], (op["t"], 1), generator=zoo.gen(op["seed"] + 9))
         return (xs, idx)
